@@ -73,7 +73,7 @@ def produce(work, binary, tier, seed):
     trace = work.path("trace.ndjson")
     args = ["-cases", cases, "-trace", trace, "-seed", seed, "-fixtures", FIXTURES, "-workers", 12]
     if tier == "thorough":
-        args.append("-allflips")
+        args += ["-allflips", "-scopereps", 32]
     out = run_driver(binary, args).strip()
     log(out)
     stats = json.loads(out.split(" ", 2)[2]) if out.startswith("EXECUTED") else {}
